@@ -49,4 +49,3 @@ func (r *chunkReader) Read(p []byte) (int, error) {
 	r.b = r.b[n:]
 	return n, nil
 }
-
